@@ -918,6 +918,14 @@ func (s *Store) delete(gvk schema.GroupVersionKind, call Call, do client.DeleteO
 		}
 		n.SetFinalizers(fins)
 	}
+	if n.GetDeletionTimestamp() == nil {
+		for _, f := range s.DeleteFinalizers[k.GK()] {
+			if !contains(fins, f) {
+				fins = append(fins, f)
+			}
+		}
+		n.SetFinalizers(fins)
+	}
 	rec.Before = deepCopy(live)
 	if len(fins) == 0 {
 		s.bury(k, e)
